@@ -9,11 +9,17 @@ Record case := {
   c_chain : list (root * slot)       (* the harness's chain: root -> slot used to script events and fetches *)
 }.
 
+Definition answer_eqb (a b : answer) : bool :=
+  prod_eqb (prod_eqb N.eqb N.eqb) (option_eqb N.eqb) a b.
+Definition answer_id (a : answer) : N := fst (fst a).
+
+(* the answers of a group are compared per lookup (sorted by lookup id) *)
 Definition out_eqb (a b : out) : bool :=
   match a, b with
   | ONone, ONone => true
   | OErr, OErr => true
   | OSlot x, OSlot y => x =? y
+  | OMany x, OMany y => list_eqb answer_eqb (sort_by answer_id x) (sort_by answer_id y)
   | _, _ => false
   end.
 
@@ -23,30 +29,88 @@ Definition agree (c : case) : bool :=
   let '(s, outs) := run init (c_ops c) in
   list_eqb out_eqb outs (c_outs c) && list_eqb entry_eqb (sort_by fst s) (c_final c).
 
-(* The property evaluated on the OBSERVED outputs alone (the model is not consulted):
+(* The property evaluated on the OBSERVED outputs alone (the model is not consulted; the head
+   events are transparent to it: whatever a head event stores must agree with the chain, which the
+   later lookups and the final map show):
    - every lookup answered with a slot got the chain's slot for that root;
    - a lookup is an error only if the fetch failed and the root is not one that must still be
      cached: [known] tracks the roots seen (event or successful lookup) and not since eligible
      for cleaning (slot below the first slot of epoch-64 at some clean with epoch > 64) --
      cleaning may remove old entries but "only removes entries older than the window";
-   - at the end every such root is still in the implementation's map with the chain's slot. *)
+   - at the end every such root is still in the implementation's map with the chain's slot, and
+     every entry of the implementation's map carries the chain's slot for its root;
+   - a group of overlapping lookups ([par_ok]): every answer with a slot carries the chain's slot
+     of the root asked for; a lookup that begins when its root must be cached is answered with a
+     slot; an error answer needs a failing fetch of the same root within the group (its own, or --
+     for an implementation that shares fetches -- another goroutine's); a root answered with a
+     slot must be cached after the group. *)
 Definition chain_slot (chain : list (root * slot)) (r : root) : slot :=
   match get chain r with Some sl => sl | None => 0 end.
+
+Definition find_answer (ans : list answer) (i : N) : option (option slot) :=
+  match find (fun a => answer_id a =? i) ans with
+  | Some a => Some (snd a)
+  | None => None
+  end.
+
+Definition fails_on (all : list pev) (r : root) : bool :=
+  existsb (fun e => match e with PEnd _ r' None => r' =? r | _ => false end) all.
+
+Definition known_after_clean (chain : list (root * slot)) (known : list root) (e spe : N) : list root :=
+  if e <=? retention then known
+  else filter (fun r => negb (chain_slot chain r <? min_slot e spe)) known.
+
+(* None = violated; Some known' = the roots that must be cached after the group.
+   WHEN, between its begin and its answer, a lookup that misses stores the fetched slot is the
+   implementation's business (the code as it stands stores when its own fetch is answered; an
+   implementation sharing fetches stores when the shared fetch is answered), so inside a group
+   only the roots known at its begin or reported by a block event meanwhile must hit; the roots
+   answered with a slot ([cands]) must be cached at the end of the group unless a cleaning run that
+   came after the lookup's begin was entitled to remove them. *)
+Fixpoint par_ok (chain : list (root * slot)) (ans : list answer) (all : list pev)
+         (known cands : list root) (evs : list pev) : option (list root) :=
+  match evs with
+  | [] => Some (cands ++ known)
+  | PBegin i r :: evs' =>
+      match find_answer ans i with
+      | None => None                                   (* every lookup is answered *)
+      | Some (Some _) => par_ok chain ans all known (r :: cands) evs'
+      | Some None =>
+          if memb N.eqb r known then None              (* it must have been a hit *)
+          else if fails_on all r then par_ok chain ans all known cands evs'
+          else None                                    (* an error without any failing fetch of that root *)
+      end
+  | PEnd _ _ _ :: evs' => par_ok chain ans all known cands evs'
+  | PEvent r _ :: evs' => par_ok chain ans all (r :: known) cands evs'
+  | PClean e spe :: evs' =>
+      par_ok chain ans all (known_after_clean chain known e spe) (known_after_clean chain cands e spe) evs'
+  end.
+
+Definition answer_slot_ok (chain : list (root * slot)) (a : answer) : bool :=
+  match a with
+  | (_, r, Some sl) => option_eqb N.eqb (get chain r) (Some sl)
+  | (_, _, None) => true
+  end.
 
 Fixpoint spec_ok (chain : list (root * slot)) (known : list root) (ops : list op) (outs : list out)
          (final : list (root * slot)) : bool :=
   match ops, outs with
   | [], [] => forallb (fun r => option_eqb N.eqb (get final r) (get chain r)) known
+              && forallb (fun p => option_eqb N.eqb (get chain (fst p)) (Some (snd p))) final
   | o :: ops', x :: outs' =>
       match o, x with
       | Event r _, ONone => spec_ok chain (r :: known) ops' outs' final
       | Lookup r _, OSlot sl =>
           option_eqb N.eqb (get chain r) (Some sl) && spec_ok chain (r :: known) ops' outs' final
       | Lookup r None, OErr => negb (memb N.eqb r known) && spec_ok chain known ops' outs' final
-      | Clean e spe, ONone =>
-          let known' := if e <=? retention then known
-                        else filter (fun r => negb (chain_slot chain r <? min_slot e spe)) known in
-          spec_ok chain known' ops' outs' final
+      | Clean e spe, ONone => spec_ok chain (known_after_clean chain known e spe) ops' outs' final
+      | Head _ _ _, ONone => spec_ok chain known ops' outs' final
+      | Par evs, OMany ans =>
+          forallb (answer_slot_ok chain) ans &&
+          match par_ok chain ans evs known [] evs with
+          | Some known' => spec_ok chain known' ops' outs' final
+          | None => false
+          end
       | _, _ => false
       end
   | _, _ => false
